@@ -152,7 +152,7 @@ def check_cfg(ctx, fx, cfg):
         ctx.viol("R05.10", "closure-holder:%s@%s" % (d, cfg), "a closure / future outside the closed list owns a strong handle (while it exists the actor cannot see its last handle dropped): %s via %s" % (a["ty"][:70], a["paths"][0][:100]), fn=d, site=(fx.fn(d) or {}).get("loc"))
     ctx.ok("R05.10", "closure-holders@" + cfg, "crate", {"closed_list": len(CLOSURE_HOLDERS)})
     # R05.7 closed mailbox -> graceful exit
-    res57 = run_loops(ctx, fx, "R05.7", {"L9", "L11", "L4", "L13"})
+    res57 = run_loops(ctx, fx, "R05.7", {"L9", "L13"})
     for lf, kind, lb, ln in res57:
         # must-have: the loop can observe the closed mailbox at all (a dequeue that never yields None — e.g.
         # select_next_some on a fused mailbox — keeps the actor running with no handle left)
